@@ -92,6 +92,13 @@ func genC03(tier string, r *rng) {
 			run(fmt.Sprintf("body %d %s", c, hx(rs)))
 		}
 	}
+	// every status code (the builder is not supposed to know about validity): body build/parse round trip
+	for c := 0; c < 65536; c++ {
+		if tier == "quick" && c%97 != 0 && !(c >= 995 && c <= 1020) && !(c >= 2995 && c <= 3005) && !(c >= 4995 && c <= 5005) {
+			continue
+		}
+		run(fmt.Sprintf("body %d %s", c, hx([]byte([]string{"", "bye", "caf\xc3\xa9"}[c%3]))))
+	}
 	for i := 0; i < 400; i++ {
 		run("parse " + hx(r.bytes(r.intn(6))))
 	}
